@@ -77,6 +77,12 @@ def assemble_subroutine(
     """
     Convert a `ProtoSubroutine` into a `Subroutine`, given a Flavour (default: vanilla).
     """
+    # The passes below rewrite the commands (arguments become operands, `set` commands are
+    # inserted, labels are removed and replaced by line numbers). They work on a private
+    # copy: the caller's ProtoSubroutine, its list of commands and the commands themselves
+    # stay as they are, and can be assembled again or be used in another subroutine.
+    pre_subroutine = _private_copy(pre_subroutine)
+
     if make_args_operands:
         _make_args_operands(pre_subroutine)
     if replace_constants:
@@ -89,6 +95,28 @@ def assemble_subroutine(
     subroutine = _build_subroutine(pre_subroutine, flavour)
 
     return subroutine
+
+
+def _private_copy(pre_subroutine: ProtoSubroutine) -> ProtoSubroutine:
+    commands: List[T_Cmd] = []
+    # (a command that is listed more than once is one object in the copy as well)
+    copies: Dict[int, ICmd] = {}
+    for command in pre_subroutine.commands:
+        if isinstance(command, ICmd):
+            if id(command) not in copies:
+                new_command = copy(command)
+                new_command.args = list(command.args)
+                new_command.operands = list(command.operands)
+                copies[id(command)] = new_command
+            commands.append(copies[id(command)])
+        else:
+            commands.append(command)
+    return ProtoSubroutine(
+        commands=commands,
+        arguments=pre_subroutine.arguments,
+        netqasm_version=pre_subroutine.netqasm_version,
+        app_id=pre_subroutine.app_id,
+    )
 
 
 def _build_subroutine(pre_subroutine: ProtoSubroutine, flavour: Flavour) -> Subroutine:
